@@ -454,3 +454,7 @@ O("C05.make_obint", ["C05", "C11"], "h_C05i.c", "h_C05_make_obint",
   "make_obint (string area of interned UIDs), two consecutive insertions of lengths 1..9 at fill levels 0..12: the handle encodes offset and length, the second string never overlaps the first or its terminator, the first keeps its bytes and its NUL",
   ["make_obint"], kind="bounded", bound="string lengths 1..9, area of 64 bytes", solver=["minisat", "kissat"], timeout={"quick": 600, "thorough": 1800}, unwind=12,
   native_srcs=["hash.c"])
+O("C03.registry", "C03", "h_C03e.c", "h_C03_registry",
+  "echse.c add_strm / rem_strm (the streams `echse unroll` muxes): after removing any one of up to 4 registered streams and adding another, every other stream and the new one are still registered, the removed one is not",
+  ["add_strm", "rem_strm"], kind="bounded", bound="up to 4 registered streams", unwind=8, solver=["minisat", "kissat"],
+  timeout={"quick": 600, "thorough": 1800}, replay=False, replay_note="echse.c needs the whole CLI to link")
